@@ -235,10 +235,12 @@ def low_level_grids(ctx, probs, reps):
                     n = 3000
                 tol = 1e-3 if method == "symplectic" else STATE_TOL
                 kinds = {"ascending_uniform": np.linspace(0.0, T, n),
-                         "ascending_nonuniform": np.concatenate([[0.0], np.sort(rng.uniform(0, T, n - 2)), [T]]) if method == "adaptive" else np.linspace(0.0, T, n),
+                         # fixed-step and symplectic schemes take one step per node interval: graded (still fine) spacing
+                         "ascending_nonuniform": np.concatenate([[0.0], np.sort(rng.uniform(0, T, n - 2)), [T]]) if method == "adaptive" else T * np.linspace(0.0, 1.0, n) ** float(rng.uniform(1.3, 2.0)),
                          "ascending_offset_start": np.linspace(0.37, 0.37 + T, n),
                          "descending": np.linspace(0.0, -T, n),
-                         "descending_offset_start": np.linspace(0.9, 0.9 - T, n)}
+                         "descending_offset_start": np.linspace(0.9, 0.9 - T, n),
+                         "descending_nonuniform": -T * np.linspace(0.0, 1.0, n) ** float(rng.uniform(1.3, 2.0))}
                 for gname, grid in kinds.items():
                     if len(np.unique(grid)) < len(grid):
                         continue
@@ -283,12 +285,20 @@ def system_propagate(ctx, probs, reps):
         if not ctx.mine(rep):
             continue
         y0 = P["y0"]()
-        T = float(rng.uniform(0.5, 6.0))
+        T = float(rng.uniform(0.5, 4.0))
         method, order = [("adaptive", 8), ("adaptive", 5), ("fixed", 8), ("fixed", 6), ("fixed", 4)][rep % 5]
         steps = 50 if method == "adaptive" else 3000
         tr = sysm.propagate(y0, tf=T, steps=steps, method=method, order=order, forward=-1)
         t, S = np.asarray(tr.times, dtype=float), np.asarray(tr.states, dtype=float)
-        yr = _ref(P["fun"], y0, [0.0, -T])[-1]
+        path = _ref(P["fun"], y0, np.linspace(0.0, -T, 200))
+        yr = path[-1]
+        mu_ = float(sysm.mu)
+        rmin = min(np.sqrt((path[:, 0] + mu_) ** 2 + path[:, 1] ** 2 + path[:, 2] ** 2).min(),
+                   np.sqrt((path[:, 0] - 1 + mu_) ** 2 + path[:, 1] ** 2 + path[:, 2] ** 2).min())
+        _, Phi = ref.flow_stm(y0, mu_, -T)
+        if rmin < 0.3 or np.linalg.norm(Phi, 2) > 1e3:
+            ctx.skip("System.propagate case not benign (close approach or sensitive path): accuracy there is C02's subject")
+            continue
         e = np.abs(S[-1] - yr).max()
         ctx.case(f"System.propagate:{method}{order}", [y0.tolist(), T], nontrivial=True)
         ctx.stat("System.propagate_backward_err", e)
@@ -305,7 +315,7 @@ def run(ctx):
     guarded(ctx, "propagate", propagate_level, ctx, probs, ctx.pick(2, 30))
     guarded(ctx, "selective_flip", selective_flip, ctx, probs, ctx.pick(4, 60))
     guarded(ctx, "low_level", low_level_grids, ctx, probs, ctx.pick(1, 20))
-    guarded(ctx, "System.propagate", system_propagate, ctx, probs, ctx.pick(5, 60))
+    guarded(ctx, "System.propagate", system_propagate, ctx, probs, ctx.pick(10, 80))
     m = 1 if ctx.nshards > 1 else 3
     ctx.require("A:backward state == state the flow had at time -t", 5 * m)
     ctx.require("B:backward time stamps are 0, non-positive, decreasing, == -linspace", 5 * m)
